@@ -347,3 +347,102 @@ Proof.
     + apply Qplus_le_compat; [exact Hlu|apply Qle_refl].
     + setoid_replace 0 with (- 0) by reflexivity. apply Qopp_le_compat. exact Hneg.
 Qed.
+
+(* ---------------------------------------------------------------- active design-variable bounds *)
+
+(* A design variable on one of its bounds adds the constraint x_j = bound, whose gradient with
+   respect to x_j is 1 in model space and also 1 in optimizer space (it is scaled by s_d / s_d), and
+   whose multiplier is unscaled with the design variable's own scaler: lam_b = (s_d / s_f) * lam_b,scaled.
+   Stationarity of x_j with that extra multiplier holds in model space iff it holds in optimizer space,
+   for any number of other active constraints. *)
+Theorem multiplier_invariance_with_bound : forall sg lams g sf sd gf lamb_s,
+  ~ sf == 0 -> ~ sd == 0 -> length sg = length g -> length lams = length g ->
+  (lagr (sf * gf / sd + lamb_s * 1) lams (scale_grads sd sg g) == 0 <->
+   lagr (gf + lamb_s * (sd / sf) * 1) (unscale_mults sf sg lams) g == 0).
+Proof.
+  intros sg lams g sf sd gf lamb_s Hf Hd H1 H2.
+  assert (E : lagr (sf * gf / sd + lamb_s * 1) lams (scale_grads sd sg g) ==
+              lagr (sf * gf / sd) (lamb_s :: lams) (scale_grads sd (sd :: sg) (1 :: g))).
+  { cbn [lagr scale_grads]. apply lagr_compat. field. exact Hd. }
+  rewrite E.
+  rewrite (multiplier_invariance (sd :: sg) (lamb_s :: lams) (1 :: g) sf sd gf Hf Hd)
+    by (simpl; congruence).
+  cbn [unscale_mults lagr]. reflexivity.
+Qed.
+
+Example kkt_bound_example :
+  (* min 3x s.t. x >= 2 scaled by s_d = 4, objective scaled by 2: scaled gradient 2*3/4, scaled
+     multiplier -3/2; in model units -3/2 * 4/2 = -3 = -(df/dx) *)
+  lagr ((2 # 1) * (3 # 1) / (4 # 1) + (-3 # 2) * 1) [] (scale_grads (4 # 1) [] []) == 0 /\
+  lagr ((3 # 1) + (-3 # 2) * ((4 # 1) / (2 # 1)) * 1) (unscale_mults (2 # 1) [] []) [] == 0.
+Proof. split; vm_compute; reflexivity. Qed.
+
+(* ---------------------------------------------------------------- whole-matrix chain rule *)
+
+Lemma dot_mapi_ext : forall (f f' g g' : nat -> Q -> Q) row x k,
+  (forall j v, f j v == f' j v) -> (forall j v, g j v == g' j v) ->
+  dot (mapi_from f k row) (mapi_from g k x) == dot (mapi_from f' k row) (mapi_from g' k x).
+Proof.
+  intros f f' g g' row. induction row as [|v row IH]; intros x k Hf Hg.
+  - reflexivity.
+  - destruct x as [|p x]; [reflexivity|]. cbn [mapi_from]. rewrite !dot_cons.
+    rewrite (IH x (S k) Hf Hg), Hf, Hg. reflexivity.
+Qed.
+
+Lemma chain_rule_mapi : forall (sr : Q) (sdf adf : nat -> Q) row x x' k,
+  length x = length row -> length x' = length row ->
+  (forall j, (j < length row)%nat -> ~ sdf (k + j)%nat == 0) ->
+  sr * (dot row x - dot row x') ==
+  dot (mapi_from (fun j v => sr * v / sdf j) k row) (mapi_from (fun j v => (v + adf j) * sdf j) k x) -
+  dot (mapi_from (fun j v => sr * v / sdf j) k row) (mapi_from (fun j v => (v + adf j) * sdf j) k x').
+Proof.
+  intros sr sdf adf row. induction row as [|v row IH]; intros x x' k Hx Hx' Hnz.
+  - destruct x, x'; try discriminate. unfold dot. simpl. ring.
+  - destruct x as [|p x], x' as [|p' x']; try discriminate. simpl in Hx, Hx'.
+    cbn [mapi_from]. rewrite !dot_cons.
+    assert (H0 : ~ sdf k == 0) by (rewrite <- (Nat.add_0_r k); apply Hnz; simpl; lia).
+    assert (IHr := IH x x' (S k) ltac:(lia) ltac:(lia)).
+    assert (Hnz' : forall j, (j < length row)%nat -> ~ sdf (S k + j)%nat == 0).
+    { intros j Hj. replace (S k + j)%nat with (k + S j)%nat by lia. apply Hnz. simpl. lia. }
+    specialize (IHr Hnz').
+    setoid_replace (sr * (v * p + dot row x - (v * p' + dot row x')))
+      with (sr * v * (p - p') + sr * (dot row x - dot row x')) by ring.
+    rewrite IHr. field. exact H0.
+Qed.
+
+(* apply_jac_scaling gives the jacobian of the scaled problem: for every response row i of any
+   matrix J, the i-th row of jac_scale applied to the scaled design vectors (vec_scale) reproduces the
+   difference of the scaled responses T_r,i (J_i . x + c) -- for scalar, per-element or absent
+   adders and scalers, any sizes *)
+Theorem jac_scale_is_jacobian_of_scaled_map :
+  forall (rs ra ds da : option sv) (J : list (list Q)) (x x' : list Q) (c : Q) (i : nat),
+  (i < length J)%nat -> length x = length (nth i J []) -> length x' = length (nth i J []) ->
+  scalers_nz ds (length x) ->
+  T (osv_get 0 ra i) (osv_get 1 rs i) (dot (nth i J []) x + c) -
+  T (osv_get 0 ra i) (osv_get 1 rs i) (dot (nth i J []) x' + c) ==
+  dot (nth i (jac_scale rs ds J) []) (vec_scale da ds x) -
+  dot (nth i (jac_scale rs ds J) []) (vec_scale da ds x').
+Proof.
+  intros rs ra ds da J x x' c i Hi Hx Hx' Hnz.
+  unfold jac_scale. rewrite (nth_mapi _ J i [] [] Hi). unfold vec_scale, mapi.
+  set (row := nth i J []) in *.
+  set (sr := osv_get 1 rs i).
+  assert (E : forall y, dot (mapi_from (fun j v =>
+                 match ds with
+                 | Some s => match rs with Some s0 => sv_get s0 i * v | None => v end * (1 / sv_get s j)
+                 | None => match rs with Some s0 => sv_get s0 i * v | None => v end
+                 end) 0 row)
+               (mapi_from (fun i0 v =>
+                 match ds with
+                 | Some s => match da with Some a => v + sv_get a i0 | None => v end * sv_get s i0
+                 | None => match da with Some a => v + sv_get a i0 | None => v end
+                 end) 0 y) ==
+              dot (mapi_from (fun j v => sr * v / osv_get 1 ds j) 0 row)
+                  (mapi_from (fun j v => (v + osv_get 0 da j) * osv_get 1 ds j) 0 y)).
+  { intro y. apply dot_mapi_ext; intros j v; subst sr; destruct rs, ds, da; simpl;
+      unfold Qdiv; try ring; try (rewrite Qinv_1 || idtac); field. }
+  rewrite (E x), (E x'). clear E.
+  rewrite <- (chain_rule_mapi sr (fun j => osv_get 1 ds j) (fun j => osv_get 0 da j) row x x' 0 Hx Hx').
+  - unfold T. subst sr. ring.
+  - intros j Hj. apply Hnz. simpl. rewrite Hx. exact Hj.
+Qed.
